@@ -77,12 +77,15 @@ func getUnifiedDiff(a, b string) (string, int, int) {
 				received := strings.Join(aLines[i1:i2], "")
 
 				if shouldPrintHighlights(expected, received) {
-					diff, i, d := singlelineDiff(received, expected)
-					s.WriteString(diff)
-					inserted += i
-					deleted += d
+					// the rune diff sees no change between texts that differ only in
+					// invalid UTF-8 bytes; fall back to printing both lines then.
+					if diff, i, d := singlelineDiff(received, expected); diff != "" {
+						s.WriteString(diff)
+						inserted += i
+						deleted += d
 
-					continue
+						continue
+					}
 				}
 
 				fallback = true
@@ -242,11 +245,14 @@ func prettyDiff(expected, received, name string, line int) string {
 	if expected == received {
 		return ""
 	}
-	differ := getUnifiedDiff
 	if shouldPrintHighlights(expected, received) {
-		differ = singlelineDiff
+		// empty when the rune diff sees no change (texts differing only in invalid
+		// UTF-8 bytes): the line diff below still reports those.
+		if diff, i, d := singlelineDiff(expected, received); diff != "" {
+			return buildDiffReport(i, d, diff, name, line)
+		}
 	}
 
-	diff, i, d := differ(expected, received)
+	diff, i, d := getUnifiedDiff(expected, received)
 	return buildDiffReport(i, d, diff, name, line)
 }
